@@ -21,6 +21,14 @@ def Exp (l : List Nat) : Prop :=
 def NumForm (s : List Nat) : Prop :=
   ∃ sg i f e, s = sg ++ i ++ f ++ e ∧ SignOpt sg ∧ Digits1 i ∧ Frac f ∧ Exp e
 
+/-- the exponent part as it must reach `strconv.ParseFloat` (which knows only `e`/`E` notation):
+`e±d` / `E±d` unchanged, `*10^s d` and `*^s d` become `e s d` with the same sign and digits -/
+def ExpText (e e' : List Nat) : Prop :=
+  (e = [] ∧ e' = []) ∨
+  (∃ ec sg d, e = ec :: sg :: d ∧ (ec = 0x65 ∨ ec = 0x45) ∧ isSignCh sg = true ∧ Digits1 d ∧ e' = e) ∨
+  (∃ sg d, (e = [0x2A, 0x31, 0x30, 0x5E] ++ sg ++ d ∨ e = [0x2A, 0x5E] ++ sg ++ d) ∧
+    SignOpt sg ∧ Digits1 d ∧ e' = 0x65 :: (sg ++ d))
+
 /-- "starts like a number": optional sign then a digit -/
 def StartsLikeNumber (s : List Nat) : Prop :=
   ∃ sg d rest, s = sg ++ d :: rest ∧ SignOpt sg ∧ isDigit d = true
